@@ -224,7 +224,9 @@ type node struct {
 	putLog          []string // human-readable list of the Puts offered so far, with their outcome
 	injectErr       bool     // the next write of the underlying store fails
 	failedPutServed []string
-	hadPair         bool // storeDKGOutput has completed at least once
+	hadPair         bool              // storeDKGOutput has completed at least once
+	saveMode        map[string]string // per key file: how the last Save put it on disk ("rename" | "in-place")
+	resetOrder      []string          // the order in which Reset removed the two files
 }
 
 type servedRec struct {
@@ -310,31 +312,52 @@ func (r *recStore) SaveShare(s *key.Share) error {
 func (r *recStore) Reset() error {
 	n := r.n
 	before := n.snap("before-reset", "after", "")
-	err := r.Store.Reset()
+	gp := key.GroupFilePath(r.Store)
+	sp := filepath.Join(filepath.Dir(gp), "dist_key.private")
+	tr, err := traceDir(filepath.Dir(gp))
 	if err != nil {
 		return err
 	}
-	gp := key.GroupFilePath(r.Store)
-	sp := filepath.Join(filepath.Dir(gp), "dist_key.private")
+	err = r.Store.Reset()
+	evs := tr.stop()
+	if err != nil {
+		return err
+	}
 	_, gErr := os.Stat(gp)
 	_, sErr := os.Stat(sp)
 	if gErr == nil || sErr == nil {
 		return fmt.Errorf("Reset left a file behind")
 	}
-	// the intermediate state: the first Delete done, the second not (order read by the translator:
-	// share, then group). Synthesised from the snapshot taken before the call.
+	// the order of the two removals, as the kernel saw them (when the files did not exist there is
+	// nothing to see and the order does not matter)
+	order := []string{"KGroup", "KShare"}
+	for _, e := range evs {
+		if e.Kind == "delete" && (e.Name == filepath.Base(gp) || e.Name == filepath.Base(sp)) {
+			if e.Name == filepath.Base(sp) {
+				order = []string{"KShare", "KGroup"}
+			}
+			break
+		}
+	}
+	n.resetOrder = order
+	first := gp
+	if order[0] == "KShare" {
+		first = sp
+	}
+	// the intermediate state: the first removal done, the second not. Built from the snapshot taken
+	// before the call.
 	half, err := copyTree(n.root, before.dir, fmt.Sprintf("%03d-half-reset", n.snapN))
 	if err != nil {
 		return err
 	}
 	n.snapN++
-	rel, _ := filepath.Rel(n.dir, sp)
+	rel, _ := filepath.Rel(n.dir, first)
 	if err := os.Remove(filepath.Join(half, rel)); err != nil && !errors.Is(err, iofs.ErrNotExist) {
 		return err
 	}
-	n.ops = append(n.ops, "PFileRemove KShare")
-	n.snaps = append(n.snaps, &snapshot{name: "reset/share-removed", dir: half, run: append([]string{}, n.ops...), cp: fmt.Sprintf("(CAfter %d)", len(n.ops)), kind: "half-reset", hadPair: n.hadPair})
-	n.ops = append(n.ops, "PFileRemove KGroup")
+	n.ops = append(n.ops, "PFileRemove "+order[0])
+	n.snaps = append(n.snaps, &snapshot{name: "reset/first-file-removed(" + order[0] + ")", dir: half, run: append([]string{}, n.ops...), cp: fmt.Sprintf("(CAfter %d)", len(n.ops)), kind: "half-reset", hadPair: n.hadPair})
+	n.ops = append(n.ops, "PFileRemove "+order[1])
 	n.snap("reset/done", "after", "")
 	return nil
 }
@@ -342,40 +365,95 @@ func (r *recStore) Reset() error {
 // fileSave runs one real Save of a key-store file and records the crash points around it.
 func (n *node) fileSave(kf string, epoch int, path string, do func() error) error {
 	before := n.snaps[len(n.snaps)-1]
-	if err := do(); err != nil {
+	// what a Save that died half-way through an earlier attempt leaves behind: a cut temporary file.
+	// It must be harmless: ignored by every loader, taken over by the next Save.
+	stale := path + ".tmp"
+	if err := os.WriteFile(stale, []byte("Thr"), 0o666); err != nil {
+		return err
+	}
+	tr, err := traceDir(filepath.Dir(path))
+	if err != nil {
+		return err
+	}
+	err = do()
+	evs := tr.stop()
+	if err != nil {
 		return err
 	}
 	content, err := os.ReadFile(path)
 	if err != nil {
 		return err
 	}
+	base := filepath.Base(path)
+	// how did the text get there? renamed into place from a file written aside, or written in place
+	tmpName := ""
+	for _, e := range evs {
+		if e.Kind == "moved-to" && e.Name == base {
+			for _, f := range evs {
+				if f.Kind == "moved-from" && f.Cookie == e.Cookie {
+					tmpName = f.Name
+				}
+			}
+		}
+	}
+	if _, err := os.Stat(stale); err == nil {
+		if tmpName == base+".tmp" {
+			return fmt.Errorf("Save renamed %s into place but it is still there", stale)
+		}
+		_ = os.Remove(stale) // not used by this Save: not part of the next snapshots
+	}
 	rel, _ := filepath.Rel(n.dir, path)
-	// after os.Create (create or truncate), before the encoder wrote anything
-	n.ops = append(n.ops, "PFileCreate "+kf)
-	mk := func(tag, kind, cp string, data []byte) error {
+	mk := func(tag, kind, cp, fileRel string, data []byte) error {
 		d, err := copyTree(n.root, before.dir, fmt.Sprintf("%03d-%s", n.snapN, tag))
 		if err != nil {
 			return err
 		}
 		n.snapN++
-		if err := os.MkdirAll(filepath.Dir(filepath.Join(d, rel)), 0o700); err != nil {
+		if err := os.MkdirAll(filepath.Dir(filepath.Join(d, fileRel)), 0o700); err != nil {
 			return err
 		}
-		if err := os.WriteFile(filepath.Join(d, rel), data, 0o600); err != nil {
+		if err := os.WriteFile(filepath.Join(d, fileRel), data, 0o600); err != nil {
 			return err
 		}
 		n.snaps = append(n.snaps, &snapshot{name: tag, dir: d, run: append([]string{}, n.ops...), cp: cp, kind: kind, hadPair: n.hadPair})
 		return nil
 	}
-	if err := mk(fmt.Sprintf("save-%s-e%d/created-empty", kf, epoch), "before-write", fmt.Sprintf("(CAfter %d)", len(n.ops)), nil); err != nil {
+	tag := fmt.Sprintf("save-%s-e%d", kf, epoch)
+	if tmpName != "" {
+		// written aside, then renamed: the crash points are on the temporary file, the target keeps its
+		// previous content until the rename
+		n.saveMode[kf] = "rename"
+		tmpRel := filepath.Join(filepath.Dir(rel), tmpName)
+		n.ops = append(n.ops, "PTmpCreate "+kf)
+		if err := mk(tag+"/temp-created-empty", "temp-before-write", fmt.Sprintf("(CAfter %d)", len(n.ops)), tmpRel, nil); err != nil {
+			return err
+		}
+		n.ops = append(n.ops, fmt.Sprintf("PTmpWrite %s %d", kf, epoch))
+		if err := mk(tag+"/temp-torn-3-bytes", "temp-torn", fmt.Sprintf("(CTorn %d)", len(n.ops)-1), tmpRel, content[:3]); err != nil {
+			return err
+		}
+		if err := mk(tag+"/temp-torn-half", "temp-torn", fmt.Sprintf("(CTorn %d)", len(n.ops)-1), tmpRel, content[:len(content)/2]); err != nil {
+			return err
+		}
+		if err := mk(tag+"/temp-complete-not-renamed", "temp-complete", fmt.Sprintf("(CAfter %d)", len(n.ops)), tmpRel, content); err != nil {
+			return err
+		}
+		n.ops = append(n.ops, fmt.Sprintf("PFileRename %s %d", kf, epoch))
+		n.snap(tag+"/renamed", "after", "")
+		return nil
+	}
+	// written in place: os.Create (create or truncate), then the encoder's write
+	n.saveMode[kf] = "in-place"
+	n.ops = append(n.ops, "PFileCreate "+kf)
+	if err := mk(tag+"/created-empty", "before-write", fmt.Sprintf("(CAfter %d)", len(n.ops)), rel, nil); err != nil {
 		return err
 	}
 	// torn write: the text cut inside its first token
 	n.ops = append(n.ops, fmt.Sprintf("PFileWrite %s %d", kf, epoch))
-	if err := mk(fmt.Sprintf("save-%s-e%d/torn-3-bytes", kf, epoch), "torn", fmt.Sprintf("(CTorn %d)", len(n.ops)-1), content[:3]); err != nil {
+	if err := mk(tag+"/torn-3-bytes", "torn", fmt.Sprintf("(CTorn %d)", len(n.ops)-1), rel, content[:3]); err != nil {
 		return err
 	}
-	n.snap(fmt.Sprintf("save-%s-e%d/written", kf, epoch), "after", "")
+	n.snap(tag+"/written", "after", "")
 	return nil
 }
 
@@ -415,7 +493,7 @@ func (n *node) snap(name, kind, expect string) *snapshot {
 }
 
 func newNode(w *world, root string) (*node, error) {
-	n := &node{w: w, root: root, dir: filepath.Join(root, "live")}
+	n := &node{w: w, root: root, dir: filepath.Join(root, "live"), saveMode: map[string]string{}}
 	ctx := context.Background()
 	var err error
 	if n.dst, err = dkg.NewDKGStore(n.dir); err != nil {
@@ -803,7 +881,7 @@ func Run(outDir string, seed int64, tier string) error {
 		}
 		lines, descr = append(lines, l...), append(descr, d...)
 	}
-	rep.Rule = "one node's whole persistence history on the real stores (genesis, first DKG output n=3 with dealt shares, 5 rounds incl. a refused duplicate and a refused gap, staged + completed resharing, 2 rounds, Left + key-store Reset); one snapshot after every persistence call plus, for every file save, the created-empty and torn variants and, for Reset, the half-done variant; each reloaded with fresh objects. distinct = distinct (crash point, reloaded observation); non-trivial = the snapshot holds at least one beacon or DKG record. M sweep: every byte-prefix of the group and share files of the resharing."
+	rep.Rule = "one node's whole persistence history on the real stores (genesis, first DKG output n=3 with dealt shares, 5 rounds incl. a refused duplicate and a refused gap, staged + completed resharing, 2 rounds, Left + key-store Reset); one snapshot after every persistence call plus, for every file save, the created-empty and torn variants and, for Reset, the half-done variant; each reloaded with fresh objects. distinct = distinct (crash point, reloaded observation); non-trivial = the snapshot holds at least one beacon or DKG record. M sweep: every byte-prefix of the group and share text of the resharing, placed where the observed Save would leave it (the temporary file next to the intact target; the target itself if Save were to write in place)."
 	if err := rep.Shard(outDir, "cases_crash", []string{"From DV Require Import Model.Crash Corr.CrashCorr."}, "ccase", "mismatches", lines, descr, 1500); err != nil {
 		return err
 	}
@@ -1017,6 +1095,15 @@ func monitor(rep *emit.Report, scheme string, s *snapshot, o obs, _ map[string][
 		rep.Fail("C13-previous-epoch-files-destroyed-before-new-ones-written",
 			fmt.Sprintf("a complete group/share pair had been on disk, dkg.db records epoch %d as completed, and at this crash point group file present=%v (%s), share present=%v (%s): restart = %s",
 				o.fin.epoch, o.gPresent, o.group.class, o.sPresent, o.share.class, o.restart), in)
+	case left && !o.gPresent:
+		// the node recorded that it left and has no group file: that IS the state a completed Reset
+		// leaves, whether or not the share file is still there (nothing loads a share without the
+		// group). The restart must be the one of a node whose Reset completed.
+		if o.restart != "RFailNoGroup" {
+			rep.Fail("C13-leaver-half-reset-fails-load", fmt.Sprintf("leaving node crashed inside Reset (share present %v) and restarts differently from a node whose Reset completed: %s", o.sPresent, o.restart), in)
+		} else {
+			rep.Count("monitor/left-without-group-file")
+		}
 	case !o.gPresent && !o.sPresent:
 		if !left {
 			rep.Fail("C13-db-ahead-of-files", fmt.Sprintf("dkg.db records epoch %d as completed but there is no group file and no share: restart = %s", o.fin.epoch, o.restart), in)
@@ -1059,13 +1146,22 @@ func monitor(rep *emit.Report, scheme string, s *snapshot, o obs, _ map[string][
 	}
 }
 
+func sortedKeys(m map[string][]int) []string {
+	var ks []string
+	for k := range m {
+		ks = append(ks, k)
+	}
+	sort.Strings(ks)
+	return ks
+}
+
 // sweep truncates the group file and the share file written by the resharing at every byte
 // offset (quick: every offset of the share file, every 3rd of the group file plus all line
 // boundaries) and classifies what the real loaders do with each prefix.
 func sweep(rep *emit.Report, w *world, n *node, root, tier string) error {
 	var base *snapshot
 	for _, s := range n.snaps {
-		if s.name == "save-KShare-e2/written" {
+		if s.name == "save-KShare-e2/written" || s.name == "save-KShare-e2/renamed" {
 			base = s
 		}
 	}
@@ -1084,11 +1180,19 @@ func sweep(rep *emit.Report, w *world, n *node, root, tier string) error {
 			return err
 		}
 		classes := map[string][]int{}
+		kf := map[string]string{"group": "KGroup", "share": "KShare"}[f.kind]
+		aside := n.saveMode[kf] == "rename"
+		target := p
+		if aside {
+			// the real Save wrote the text aside and renamed it: a crash inside the write leaves a cut
+			// TEMPORARY file next to the intact target, and that must never change what is loaded
+			target = p + ".tmp"
+		}
 		for off := 0; off < len(full); off++ {
 			if tier != "thorough" && f.kind == "group" && off%3 != 0 && full[off] != '\n' && (off == 0 || full[off-1] != '\n') {
 				continue
 			}
-			if err := os.WriteFile(p, full[:off], 0o600); err != nil {
+			if err := os.WriteFile(target, full[:off], 0o600); err != nil {
 				return err
 			}
 			var fl fload
@@ -1109,7 +1213,22 @@ func sweep(rep *emit.Report, w *world, n *node, root, tier string) error {
 			rep.Evaluations++
 			c := fl.class + detail
 			classes[c] = append(classes[c], off)
-			rep.Count("sweep/" + f.kind + "/" + fl.class)
+			if aside {
+				rep.Count("sweep-temp/" + f.kind + "/" + fl.class)
+			} else {
+				rep.Count("sweep/" + f.kind + "/" + fl.class)
+			}
+		}
+		if aside {
+			_ = os.Remove(target)
+			for _, k := range sortedKeys(classes) {
+				if k != "ok" {
+					rep.Fail("C13-temp-file-changes-what-loads", fmt.Sprintf("with %s.tmp holding the first %d of %d bytes next to the complete %s, the loader returns %s", f.name, classes[k][0], len(full), f.name, k),
+						map[string]interface{}{"file": f.name, "behaviour": k, "prefixes": len(classes[k])})
+				}
+			}
+			rep.Extra["sweep_temp_"+f.kind] = map[string]interface{}{"file": f.name + ".tmp", "length": len(full), "prefixes_ignored_by_loader": len(classes["ok"])}
+			continue
 		}
 		if err := os.WriteFile(p, full, 0o600); err != nil {
 			return err
